@@ -64,6 +64,10 @@ Inductive ms_task :=
 | MsTEmpty (tok : N)
 | MsTLink (promise : option N).
 
+(* requests of the user API: a class read, a link status check, a request that expects an empty
+   response (IMMEDIATE_FREEZE without objects) and a time synchronisation *)
+Inductive ms_ukind := MsUKRead (m : N) | MsUKLink | MsUKEmpty | MsUKTsync (p : N).
+
 Inductive ms_ttype := MsKUserRead | MsKPoll | MsKIntegrity | MsKEventScan | MsKClearRestart | MsKEnableUnsol
                  | MsKDisableUnsol | MsKTimeSync | MsKEmpty.
 
@@ -228,7 +232,7 @@ Record ms_assoc := {
   ms_a_cfg : ms_acfg;
   ms_a_seq : N;
   ms_a_last_unsol : option ms_unsol_id;
-  ms_a_queue : list ms_task;
+  ms_a_queue : list (N * ms_ukind);      (* queued user requests: token and kind *)
   ms_a_auto : ms_task_states;
   ms_a_polls : list ms_poll;
   ms_a_poll_id : N;
@@ -249,7 +253,7 @@ Definition ms_set_auto (a : ms_assoc) (ts : ms_task_states) : ms_assoc :=
      ms_a_link_deadline := ms_a_link_deadline a; ms_a_integrity_done := ms_a_integrity_done a;
      ms_a_events := ms_a_events a |}.
 
-Definition ms_set_queue (a : ms_assoc) (q : list ms_task) : ms_assoc :=
+Definition ms_set_queue (a : ms_assoc) (q : list (N * ms_ukind)) : ms_assoc :=
   {| ms_a_addr := ms_a_addr a; ms_a_cfg := ms_a_cfg a; ms_a_seq := ms_a_seq a; ms_a_last_unsol := ms_a_last_unsol a;
      ms_a_queue := q; ms_a_auto := ms_a_auto a; ms_a_polls := ms_a_polls a; ms_a_poll_id := ms_a_poll_id a;
      ms_a_link_deadline := ms_a_link_deadline a; ms_a_integrity_done := ms_a_integrity_done a;
@@ -630,13 +634,21 @@ Fixpoint ms_assoc_next_task (fuel : nat) (now : ms_time) (systime : option Z) (a
       end
   end.
 
+Definition ms_user_task (tok : N) (k : ms_ukind) : ms_task :=
+  match k with
+  | MsUKRead m => MsTUserRead (N.land m 15) tok
+  | MsUKLink => MsTLink (Some tok)
+  | MsUKEmpty => MsTEmpty tok
+  | MsUKTsync p => MsTTimeSync (ms_tsync_start_state p) (Some tok)
+  end.
+
 (* Association::ms_priority_task: pop queued user requests until one starts *)
-Fixpoint ms_priority_task (now : ms_time) (systime : option Z) (q : list ms_task) (a : ms_assoc)
+Fixpoint ms_priority_task (now : ms_time) (systime : option Z) (q : list (N * ms_ukind)) (a : ms_assoc)
   : ms_assoc * list ms_obs * option ms_task :=
   match q with
   | [] => (ms_set_queue a [], [], None)
-  | t :: rest =>
-      match ms_task_start now systime t a with
+  | (tok, uk) :: rest =>
+      match ms_task_start now systime (ms_user_task tok uk) a with
       | (a1, o, Some t') => (ms_set_queue a1 rest, o, Some t')
       | (a1, o, None) =>
           let '(a2, o2, r) := ms_priority_task now systime rest a1 in (a2, o ++ o2, r)
